@@ -10,23 +10,40 @@ import numpy as np
 from harness import common as C
 
 HEADER = """From Coq Require Import List ZArith QArith Bool. Import ListNotations.
+From Coq Require Import Uint63.
 From TLV Require Import Base.Ops Base.Tensor Model.Svd Corr.C05.
-Open Scope nat_scope."""
+Open Scope nat_scope.
+Notation "'D' m e" := (dy false m%uint63 e%uint63) (at level 0, m at level 0, e at level 0, only parsing).
+Notation "'N' m e" := (dy true m%uint63 e%uint63) (at level 0, m at level 0, e at level 0, only parsing)."""
 HEADER_D = HEADER + "\nDefinition failing := dfailing."
 EP = "tensorly.tenalg.svd.svd_interface"
 
 
 # ----------------------------------------------------------------------------- literals
+def dq(x):
+    """exact literal of a float64: (D m e) = m / 2^e, (N m e) = -m / 2^e with primitive-integer m, e (cheap to parse);
+    falls back to the scoped Qmake literal of common.q outside the representable range"""
+    num, den = float(x).as_integer_ratio()
+    e = den.bit_length() - 1
+    if abs(num) >= 2 ** 62 or e >= 2 ** 20:
+        return C.q(float(x))
+    return f"({'N' if num < 0 else 'D'} {abs(num)} {e})"
+
+
+def dq_list(xs):
+    return "[" + "; ".join(dq(x) for x in xs) + "]" if len(xs) else "(@nil Q)"
+
+
 def qmat(a):
     a = np.asarray(a, dtype=float)
     if a.ndim != 2:
         raise ValueError("not a matrix")
-    rows = [C.q_list([float(x) for x in r]) for r in a]
+    rows = [dq_list([float(x) for x in r]) for r in a]
     return "[" + "; ".join(rows) + "]" if rows else "(@nil (list Q))"
 
 
 def qvec(v):
-    return C.q_list([float(x) for x in np.asarray(v, dtype=float).ravel()])
+    return dq_list([float(x) for x in np.asarray(v, dtype=float).ravel()])
 
 
 def triple_lit(t):
@@ -466,7 +483,14 @@ def evaluate(cfg):
 def run(chk):
     rng = random.Random(chk.seed)
     _install_known_loader()
+    import time
+    tm = {"t": time.time(), "c": time.process_time()}
+
+    def lap(name):
+        chk.notes.append(f"timing {name}: wall {time.time() - tm['t']:.1f}s, harness cpu {time.process_time() - tm['c']:.1f}s")
+        tm["t"], tm["c"] = time.time(), time.process_time()
     chk.build_proofs()
+    lap("build_proofs")
     # common.print_assumptions also captures the header line "Axioms:" that Coq prints before the list; it is not an axiom
     chk.axioms = {k: [a for a in v if a != "Axioms"] for k, v in chk.axioms.items()}
     chk.broken = [b for b in chk.broken if not (str(b.get("what", "")).endswith("depends on non-stdlib axioms") and b.get("detail") == ["Axioms"])]
@@ -509,6 +533,7 @@ def run(chk):
                 continue
             cases.append(case_lit(len(cases), cfg, out, ents))
             meta.append(cfg)
+    lap("implementation + predicates")
     failing, n_eval, broken = C.run_case_shards("C05", HEADER, "case", cases, shard=(60 if tier == "quick" else 120))
     chk.checker_cmds.append("coqc (vm_compute) on generated build/cases/C05/*/*.v: Corr.C05.failing / dfailing")
     for b in broken:
@@ -516,6 +541,7 @@ def run(chk):
     for i in sorted(failing):
         cfg = meta[i]
         chk.disagreement("corr:C05 (Model/Svd.v svd_interface vs tensorly/tenalg/svd.py)", inputs_of(cfg))
+    lap("interface shards")
     # direct calls of svd_flip / symeig_svd
     dcases, dmeta = direct_cases(chk, tier, rng)
     dfail, dn, dbroken = C.run_case_shards("C05", HEADER_D, "dcase", dcases, shard=(80 if tier == "quick" else 150), tag="direct")
@@ -523,6 +549,7 @@ def run(chk):
         chk.broken.append({"what": "correspondence corr:C05 (direct) shard not evaluated", "detail": b})
     for i in sorted(dfail):
         chk.disagreement("corr:C05 direct (Model/Svd.v svd_flip / symeig_svd vs tensorly/tenalg/svd.py)", dmeta[i])
+    lap("direct cases + shards")
     chk.cov["traces_validated_against_impl"] = n_eval + dn
     chk.cov["tape_missing_skipped"] = skipped_tape
     chk.cov["exhaustive"] = False
